@@ -956,6 +956,10 @@ class World:
         ent.note_state(hk, rec.post)
         for i in rec.inds:
             self.ind_log.append((ent.name, i, rec.seq))
+            if rec.post.state == "IDLE" and len(i) > 1 and isinstance(i[1], tuple) and i[0] != "transaction":
+                # a transaction that started and ended inside one call (metadata-only) is visible to the user only
+                # through its indications: the user's history records it as closed
+                ent.closed[hk].add(i[1])
         for f in rec.faults:
             self.fault_log.append((ent.name, f, rec.seq))
             if f[0] == "abandon" and f[1] is not None and rec.post.state == "IDLE":
